@@ -185,12 +185,8 @@ inductive Plan
   /-- parameters pairwise, then the return types, result `t` -/
   | zipThen (xs ys : List MTy) (x y : MTy) (t : MTy)
 
-/-- the arms of `match (a, b)` (after `a == b`), non-recursive part -/
-def planArms (d : Defs) (s : Store) (occFuel : Nat) : MTy → MTy → Plan
-  | .explicitVar _, _ => .ice
-  | _, .explicitVar _ => .ice
-  | .never, x => .same x
-  | x, .never => .same x
+/-- the arms of `match (a, b)` after the explicit-variable and never arms -/
+def planCore (d : Defs) (s : Store) (occFuel : Nat) : MTy → MTy → Plan
   | .intVar a sa, .intVar b sb =>
     -- unify_intvars: `Yes` has priority over `No` (if the source still says so)
     if !C07Facts.intVarsYesPriority then .stuck
@@ -226,6 +222,25 @@ def planArms (d : Defs) (s : Store) (occFuel : Nat) : MTy → MTy → Plan
     if an != bn then .fail else .zip aargs bargs (.name bn bargs)
   | .func aps ar, .func bps br => .zipThen aps bps ar br (.func bps br)
   | _, _ => .fail
+
+/-- the arms of `match (a, b)` (after `a == b`), non-recursive part: explicit
+    variables are an internal error; the arm `(Never, x) | (x, Never) => x` is
+    there iff the source has it (regenerated fact; the repaired checker lets a
+    found `!` fit any expected type in `unify` itself, not in `unify_inner`) -/
+def planArmsWith (neverArm : Bool) (d : Defs) (s : Store) (occFuel : Nat) (a b : MTy) : Plan :=
+  match a, b with
+  | .explicitVar _, _ => .ice
+  | _, .explicitVar _ => .ice
+  | a, b =>
+    if neverArm then
+      match a, b with
+      | .never, x => .same x
+      | x, .never => .same x
+      | a, b => planCore d s occFuel a b
+    else planCore d s occFuel a b
+
+def planArms (d : Defs) (s : Store) (occFuel : Nat) (a b : MTy) : Plan :=
+  planArmsWith C07Facts.unifyInnerNeverArm d s occFuel a b
 
 /-- `(a, b) if a == b => a`, then the arms -/
 def plan (d : Defs) (s : Store) (occFuel : Nat) (a b : MTy) : Plan :=
@@ -289,6 +304,17 @@ def unifyFieldsRest (d : Defs) : Nat → Store → List (Nat × MTy) → List (N
       | .ok _ s' => unifyFieldsRest d fuel s' arest brest
       | .fail s' => .fail s' | .ice => .ice | .stuck => .stuck
 end
+
+/-- `TypeChecker::unify(expected, found)`: a found `!` (a diverging expression)
+    fits any expected type — if the source says so —, everything else is
+    `unify_inner` -/
+def unifyTop (d : Defs) (fuel : Nat) (s : Store) (expected found : MTy) : Res MTy :=
+  match C07Facts.unifyFoundNeverFitsAll, resolve s found with
+  | true, some .never =>
+    (match resolve s expected with
+     | some e => .ok e s
+     | none => .stuck)
+  | _, _ => unify d fuel s expected found
 
 /-- what `Negate` does to an operand that resolved to `IntVar(i, No)`:
     `unionfind.set(i, IntVar(i, Yes))` -/
